@@ -24,6 +24,7 @@ const (
 )
 
 type cthread struct {
+	gid     uint64
 	resume  chan struct{}
 	parked  chan int
 	done    bool
@@ -39,7 +40,7 @@ type Ctl struct {
 }
 
 func NewCtl() *Ctl {
-	return &Ctl{byGid: map[uint64]*cthread{}, Timeout: 3 * time.Millisecond}
+	return &Ctl{byGid: map[uint64]*cthread{}, Timeout: time.Millisecond}
 }
 
 func gid() uint64 {
@@ -65,7 +66,8 @@ func (c *Ctl) Go(f func()) int {
 	reg := make(chan struct{})
 	go func() {
 		c.mu.Lock()
-		c.byGid[gid()] = t
+		t.gid = gid()
+		c.byGid[t.gid] = t
 		c.mu.Unlock()
 		close(reg)
 		<-t.resume
@@ -91,7 +93,63 @@ func (c *Ctl) Yield(p int) {
 	<-t.resume
 }
 
-// Step resumes thread i until its next yield.
+// goroutineStack returns the header and stack of goroutine g from a full dump
+// ("" when it no longer exists).
+func goroutineStack(g uint64) string {
+	buf := make([]byte, 1<<18)
+	for {
+		n := runtime.Stack(buf, true)
+		if n < len(buf) {
+			buf = buf[:n]
+			break
+		}
+		buf = make([]byte, 2*len(buf))
+	}
+	pre := []byte("goroutine " + strconv.FormatUint(g, 10) + " [")
+	for _, blk := range bytes.Split(buf, []byte("\n\n")) {
+		if bytes.HasPrefix(blk, pre) {
+			return string(blk)
+		}
+	}
+	return ""
+}
+
+// blockedOutside: the runtime says goroutine g waits on a lock, channel or
+// WaitGroup somewhere else than in the controller's own hand-over. This, not
+// elapsed time, is what makes a step "blocked".
+func blockedOutside(g uint64) bool {
+	st := goroutineStack(g)
+	if st == "" {
+		return false
+	}
+	hdr := st
+	if k := bytes.IndexByte([]byte(st), '\n'); k >= 0 {
+		hdr = st[:k]
+	}
+	waiting := false
+	for _, w := range []string{"[chan send", "[chan receive", "[select", "[semacquire", "[sync."} {
+		if bytes.Contains([]byte(hdr), []byte(w)) {
+			waiting = true
+		}
+	}
+	if !waiting {
+		return false
+	}
+	if bytes.Contains([]byte(st), []byte("main.(*Ctl).Yield")) {
+		return false // parked at a yield point: the hand-over is in progress
+	}
+	// the final hand-over of a finished goroutine: the innermost frame is the wrapper in Ctl.Go
+	lines := bytes.Split([]byte(st), []byte("\n"))
+	if len(lines) > 1 && bytes.HasPrefix(lines[1], []byte("main.(*Ctl).Go.func1")) {
+		return false
+	}
+	return true
+}
+
+// Step resumes thread i until its next yield. It returns Blocked only when the
+// runtime reports the goroutine waiting on a lock / channel / WaitGroup outside
+// the controller (or, as a last resort, after 20 s); a goroutine that is merely
+// slow is waited for.
 func (c *Ctl) Step(i int) int {
 	t := c.ths[i]
 	if t.done {
@@ -101,16 +159,33 @@ func (c *Ctl) Step(i int) int {
 		t.resume <- struct{}{}
 		t.running = true
 	}
-	select {
-	case l := <-t.parked:
+	deadline := time.Now().Add(20 * time.Second)
+	wait := c.Timeout
+	got := func(l int) int {
 		t.running = false
 		t.label = l
 		if l == Finished {
 			t.done = true
 		}
 		return l
-	case <-time.After(c.Timeout):
-		return Blocked
+	}
+	for {
+		select {
+		case l := <-t.parked:
+			return got(l)
+		case <-time.After(wait):
+		}
+		if wait < 8*time.Millisecond {
+			wait *= 2
+		}
+		if blockedOutside(t.gid) || time.Now().After(deadline) {
+			select {
+			case l := <-t.parked:
+				return got(l)
+			default:
+			}
+			return Blocked
+		}
 	}
 }
 
@@ -118,7 +193,7 @@ func (c *Ctl) Done(i int) bool { return c.ths[i].done }
 
 // Running: resumed earlier, blocked then, and not parked since.
 func (c *Ctl) Running(i int) bool { return c.ths[i].running }
-func (c *Ctl) N() int          { return len(c.ths) }
+func (c *Ctl) N() int             { return len(c.ths) }
 func (c *Ctl) AllDone() bool {
 	for _, t := range c.ths {
 		if !t.done {
